@@ -2,4 +2,5 @@
 #![allow(unused_imports, dead_code, clippy::all)]
 pub mod stubs;
 pub mod util;
+pub mod vmap;
 mod c15;
